@@ -5,6 +5,10 @@ use std::io::{BufWriter, Write};
 
 pub struct TraceWriter {
     out: BufWriter<File>,
+    /// path of the file (the watchdog appends to it)
+    pub path: String,
+    /// flush after every event (a watchdog may end the process at any time)
+    pub sync: bool,
     pub lines: u64,
     /// when set, events are dropped (silent re-execution of a history prefix)
     pub mute: bool,
@@ -13,7 +17,7 @@ pub struct TraceWriter {
 impl TraceWriter {
     pub fn create(path: &str) -> Self {
         let f = File::create(path).unwrap_or_else(|e| panic!("cannot create {path}: {e}"));
-        Self { out: BufWriter::new(f), lines: 0, mute: false }
+        Self { out: BufWriter::new(f), path: path.to_string(), sync: false, lines: 0, mute: false }
     }
     pub fn emit(&mut self, v: &Value) {
         if self.mute {
@@ -21,6 +25,9 @@ impl TraceWriter {
         }
         serde_json::to_writer(&mut self.out, v).unwrap();
         self.out.write_all(b"\n").unwrap();
+        if self.sync {
+            self.out.flush().unwrap();
+        }
         self.lines += 1;
     }
     pub fn finish(mut self) -> u64 {
